@@ -47,6 +47,7 @@ RECURSIVE Wrap(_, _)
 Wrap(n, w) == IF w = <<>> THEN n
               ELSE IF Head(w) = "arr" THEN Arr(<<Wrap(n, Tail(w))>>) ELSE O1(Head(w), Wrap(n, Tail(w)))
 LeafObjs == {O2("k0", x, "k1", y) : x \in {N1, N2, N3}, y \in {N1, N2}} \cup {Obj([j \in {"k0", "k1", "k2"} |-> IF j = "k0" THEN x ELSE N1]) : x \in {N1, N2}}
+            \cup {O2("k0", Arr(t), "k1", y) : t \in {<<N1>>, <<N1, N2>>, <<N1, N2, N3>>}, y \in {N1, N2}}
 WrapShapes == { <<"k0">>, <<"k0", "k1">>, <<"k0", "k1", "k2">>, <<"k0", "arr", "k1">>, <<"k0", "k1", "k2", "k0">>,
                 <<"k0", "k1", "k2", "k0", "k1">>, <<"k0", "arr", "k1", "arr", "k2", "k0">>, <<"arr", "k0", "k1">> }
 DeepObj == {Wrap(n, w) : n \in LeafObjs, w \in WrapShapes}
@@ -99,8 +100,12 @@ YamlDocs ==
   UNION { {Str(y), Arr(<<Str(y), N1>>), O1("k0", Str(y)), Obj([j \in {y} |-> N1]), Arr(<<N1, Str(y)>>),
            Obj([j \in {"k0", y} |-> IF j = "k0" THEN Arr(<<Str(y)>>) ELSE Str(y)]),
            O2("k0", N1, "k1", Str(y))} : y \in YAtoms }
+  \cup {Num(1000000 + i) : i \in 2..9} \cup {O1("k0", Num(1000000 + i)) : i \in 2..9} \cup {Arr(<<N1, Num(1000000 + i)>>) : i \in 2..9}
   \cup {Num(8), Num(1), Num(-20), Num(8000000), Num(0), Num(-1), Num(1000001), EmptyArr, EmptyObj, Null, Bool(TRUE), Bool(FALSE),
         Arr(<<EmptyArr, EmptyObj, Null>>), O2("k0", EmptyObj, "k1", EmptyArr), Arr(<<Num(1), Num(12)>>), O1("k0", Null)}
+
+(* string-to-string changes (character-level colour diff, escaping) *)
+StrDocs == ObjFam(2, {S0, S1, Str("sA"), N1}) \cup {Arr(t) : t \in TuplesUpTo({S0, S1, Str("sA")}, 2)}
 
 (* type-confusable values for the equality oracle (C04) *)
 Confusable ==
